@@ -179,6 +179,7 @@ def install_runtime():
     shims.install_int_pass(reals, floats, cctx)
     shims.install_frac_pass(reals, floats)
     shims.install_concretizing_int_methods()
+    shims.install_sign_lift()
     shims.stub_formatting()
     summaries.install()
     rt = byte.BytecodeInterpreter()
